@@ -31,7 +31,7 @@ GENEFF = (" Further tie (regenerated on every run): translate/eff2coq.py derives
           "random generator, that Database.load writes only its own object and the database readers nothing (section 16g of DESIGN.md).")
 GENHTTPX = (" Further tie (regenerated on every run): translate/http2coq.py translates read.py (first line, header lines with continuations, read_payload), header.py / http.py "
             "(lower_name, _get_header_value, software, from_buffer) and signatures/http.py (HTTPSignature.parse, _parse_headers, header_names) from /repo's CURRENT source; "
-            "coq/Gen/GenHttpP.v proves them equal to the model for all payloads / signature texts (the two regexes and h11's line extraction are assumed primitives, read literally), "
+            "coq/Gen/GenHttpP.v proves them equal to the model for all payloads / signature texts (the two regexes and h11's line extraction are primitives of THIS tie, read literally; the ties h112coq and re2coq - attached to C04, C07, C09 - prove them: sections 16h, 16i of DESIGN.md), "
             "GenHttpC.v restates the C07 / C09 theorems for the translated code.")
 TIE = ("Tie to /repo: the hand-written Gallina model is extracted (ExtrOcamlBasic) and run against the working tree's pyp0f on "
        "boundary-directed generated cases plus exhaustive sweeps of the small sub-domains; every disagreement is a replayable "
@@ -51,8 +51,8 @@ CLAIMED = {
                   "searches (specific exact, generic exact, first fuzzy unless class '!'), the result is a matching member of the consulted list, only "
                   "the packet direction's section is read, distance formula and 0..255 range (via the C01 type theorem), packet gate, unloaded "
                   "database -> DatabaseError. " + TIE + GEN,
-             note="Trusted: as C01; the packet signature given to the model is the one the implementation extracted from the same bytes "
-                  "(extraction is C03's tie). No axioms.",
+             note="Trusted: as C01; the model side extracts the packet signature from the wire bytes itself (C03's verified extractor) - nothing the implementation extracted "
+                  "is given to the model. No axioms.",
              tech="Coq proof (loop = declarative selection) + extracted-model differential correspondence through fingerprint_tcp", ref="DESIGN.md section 4 C02"),
  "C13": dict(text="Coq theorems: verdict iff the gate (both timestamps non-zero, wait window, >= 5 ticks mod 2^32, not the grace case); inside the gate "
                   "in-scale -> rounded tps + uptime fields, out-of-scale -> tps -1 (no verdict on a pure SYN); forward progress by d ticks reads d*1000/ms "
@@ -66,7 +66,7 @@ CLAIMED = {
                   "every former MSS position still an MSS. " + TIE + GEN + " The impersonated packet is re-fingerprinted by the real code and all non-option "
                   "header fields are compared.",
              note="Trusted: as C01; options of the base packet are abstracted to MSS / opaque-other by the harness; (fragment,type,version,MSS) given to "
-                  "the fingerprint model are those the implementation extracted (C03's tie). No axioms.",
+                  "the fingerprint model come from the model's own extractor for sniffed packets and from how the packet was built for constructed ones. No axioms.",
              tech="Coq proof (first-equal record, option-list invariants) + extracted-model differential correspondence", ref="DESIGN.md section 4 C08"),
  "C03": dict(text="Coq theorems: the IPv4 (IHL 5..15, all field values), IPv6 and TCP (all 9 flag bits) dissectors invert the header encoders and yield "
                   "exactly the documented quirk sets; whole-packet composition for both versions (every packet-signature field equals the header "
@@ -75,11 +75,11 @@ CLAIMED = {
                   "wrong-length fixed-format option is never turned into a value. " + TIE + GEN + " Packets are built by a Scapy-free byte builder; Scapy "
                   "dissection sits on the implementation side of the tie.",
              note="Trusted: as C01; Scapy is not modelled (the model answers only for well-framed IPv4/IPv6+TCP datagrams, which the harness builds); IPv6 "
-                  "extension headers and link-layer trailers are outside the demand. No axioms.",
+                  "extension headers are outside the model (bytes after the end of the datagram - link-layer trailers - are covered: C03_trailer_ignored). No axioms.",
              tech="Coq proof (codec inversion, TLV walker soundness+completeness) + extracted-model differential correspondence on raw bytes", ref="DESIGN.md section 4 C03"),
  "C04": dict(text="Coq theorems: the option walker terminates within one iteration per byte for EVERY byte string and its layout never exceeds the number "
                   "of option bytes; the dissector model yields a packet or PacketError; the tcp/mtu/uptime fingerprint models yield a result, PacketError or "
-                  "DatabaseError only; the HTTP reader returns a result or PacketError for EVERY byte string (no Crash constructor reachable). " + TIE + GEN + GENHTTPX + GENH11 +
+                  "DatabaseError only; the HTTP reader returns a result or PacketError for EVERY byte string (no Crash constructor reachable). " + TIE + GEN + GENHTTPX + GENH11 + GENRE +
                   " The implementation is run under a per-call alarm and address-space limit on mutated packets/payloads (hostile options, inconsistent "
                   "lengths, truncations, leading CR/LF, non-ASCII) and must answer ok or PacketError.",
              note="Trusted: as C01; byte strings Scapy itself refuses to dissect are outside the quantifier (counted as dissect-failed); work/memory "
@@ -108,7 +108,7 @@ CLAIMED = {
  "C10": dict(text="Coq theorems: parse_file ends in a database or ParsingError(n) for EVERY line list (no other outcome constructor reachable: the partial "
                   "operations of the code are modelled as partial and proved safe); n is the 1-based number of the first offending line (the prefix parses, "
                   "that line fails); accepted tcp/mtu/http signatures are within the documented ranges, quirks legal for the version; skipped lines leave the "
-                  "state unchanged. " + TIE + GENSIG + GENFILE + " Single-fault corruptions, a per-field boundary catalogue and all short line-kind sequences are run.",
+                  "state unchanged. " + TIE + GENSIG + GENFILE + GENHTTPX + " Single-fault corruptions, a per-field boundary catalogue and all short line-kind sequences are run.",
              note="Trusted: as C09; an unreadable path is checked on the implementation only (open() is not modelled). No axioms.",
              tech="Coq proof (outcome classes, first-error line, range lemmas) + extracted-model differential correspondence on corrupted files", ref="DESIGN.md section 4 C10"),
  "C15": dict(text="Coq theorems: type:class:name:flavour with colon-free parts parses to its components and dumps back to the same text; sys does not "
